@@ -16,8 +16,13 @@ theorem SInv.of_rel {st : St} (inv : SInv st) {t' : Tree} (hinv : TInv t') (hrel
     constructor
     · rintro ⟨w', hl'⟩; obtain ⟨w, hl, _⟩ := hrel.live_back hl'; exact ⟨w, hl⟩
     · rintro ⟨w, hl⟩; obtain ⟨w', hl', _⟩ := hrel.live hl; exact ⟨w', hl'⟩
-  refine ⟨hinv, by simp only; rw [hrel.1]; exact inv.wx_size, ?_, List.nodup_nil, by intro i hi; simp at hi, ?_,
-    ⟨inv.pens.rc, inv.pens.ex⟩, ?_, ?_, ?_, inv.rb_rc⟩
+  refine ⟨⟨hinv, by simp only; rw [hrel.1]; exact inv.wx_size, ?_, List.nodup_nil, by intro i hi; simp at hi, ?_,
+    ⟨inv.pens.rc, inv.pens.ex, inv.pens.pos⟩, ?_, ?_, ?_, inv.simple⟩, ?_⟩
+  rotate_right
+  · intro i w' hl'
+    obtain ⟨w, hl, _⟩ := hrel.live_back hl'
+    rw [hrc i w w' hl.1 hl'.1]
+    exact inv.wref i w hl
   · intro i w' hl'
     obtain ⟨w, hl, _⟩ := hrel.live_back hl'
     rw [hrc i w w' hl.1 hl'.1]
@@ -380,17 +385,17 @@ theorem newWin_ok {st : St} (inv : SInv st) {p : Nat} {pw : Win} (hp : LiveW st.
     rw [G] at hx'
     simp only [hqne, if_false, if_true, Option.some.injEq] at hx'
     exact hx'.symm
-  have hhold : ∀ (k : Nat), holders { st with tree := inserted st.tree q qw w cs, wx := (st.wx ++ Array.replicate (st.tree.wins.size - st.wx.size) ({} : WinX)).push { cparent := some q } } k = holders st k := by
+  have hhold : ∀ (k : Nat), holders { st with tree := inserted st.tree q qw w cs, wx := (st.wx ++ Array.replicate (st.tree.wins.size - st.wx.size) ({} : WinX)).push {} } k = holders st k := by
     intro k
     unfold holders
     simp only [hwx, Nat.sub_self, Array.replicate_zero, Array.append_empty, Array.toList_push, List.filter_append,
       List.length_append]
     simp
   have hgetX : ∀ (i : Nat), i < st.tree.wins.size →
-      getX { st with tree := inserted st.tree q qw w cs, wx := (st.wx ++ Array.replicate (st.tree.wins.size - st.wx.size) ({} : WinX)).push { cparent := some q } } i = getX st i := by
+      getX { st with tree := inserted st.tree q qw w cs, wx := (st.wx ++ Array.replicate (st.tree.wins.size - st.wx.size) ({} : WinX)).push {} } i = getX st i := by
     intro i hi
     rw [← hwx] at hi
-    have := getX_append_push (st := st) { cparent := some q } i hi
+    have := getX_append_push (st := st) {} i hi
     unfold getX
     simp only [hwx] at this ⊢
     exact this
@@ -404,7 +409,29 @@ theorem newWin_ok {st : St} (inv : SInv st) {p : Nat} {pw : Win} (hp : LiveW st.
       by_cases h0q : (0 : Nat) = q
       · subst h0q; exact ⟨_, hqI⟩
       · exact ⟨x, by rw [G]; simp [h0q, h0]; exact hl.1, hl.2⟩
-  refine ⟨invI, ?_, ?_, List.nodup_nil, by intro i hi; simp at hi, ?_, ⟨?_, ?_⟩, ?_, ?_, ?_, inv.rb_rc⟩
+  refine ⟨⟨invI, ?_, ?_, List.nodup_nil, by intro i hi; simp at hi, ?_, ⟨?_, ?_, inv.pens.pos⟩, ?_, ?_, ?_, inv.simple⟩, ?_⟩
+  rotate_right
+  · intro i x' hl'
+    by_cases hi : i = st.tree.wins.size
+    · subst hi
+      have := neww x' hl'.1
+      subst this
+      rw [hwrc]
+      have e : getX { st with tree := inserted st.tree q qw x' cs, wx := (st.wx ++ Array.replicate (st.tree.wins.size - st.wx.size) ({} : WinX)).push {} } st.tree.wins.size = {} := by
+        unfold getX
+        simp only [hwx, Nat.sub_self, Array.replicate_zero, Array.append_empty]
+        rw [Array.getElem?_push]
+        simp [hwx]
+      rw [e]
+      show (1 : Int) ≤ ((1 : Nat) : Int)
+      omega
+    · obtain ⟨x, hx, hf, hr⟩ := oldw i x' hl'.1 hi
+      have hilt : i < st.tree.wins.size := by
+        by_cases hilt : i < st.tree.wins.size
+        · exact hilt
+        · have := Array.getElem?_eq_none (xs := st.tree.wins) (Nat.le_of_not_lt hilt)
+          rw [hx] at this; cases this
+      rw [hr, hgetX i hilt]; exact inv.wref i x ⟨hx, by rw [← hf]; exact hl'.2⟩
   · simp only [Array.size_push, Array.size_append, Array.size_replicate, hsz, hwx]; omega
   · intro i x' hl'
     by_cases hi : i = st.tree.wins.size
@@ -444,10 +471,10 @@ open WinTree (Id Win Req Change Tree)
 
 /-! ## the state invariant under a change of the tree that frees nothing -/
 
-theorem SInv.of_tree {st : St} (inv : SInv st) {t' : Tree} (hinv : TInv t') (hsz : t'.wins.size = st.tree.wins.size)
+theorem SInvB.of_tree {st : St} (inv : SInvB st []) {t' : Tree} (hinv : TInv t') (hsz : t'.wins.size = st.tree.wins.size)
     (h : ∀ (i : Nat) (w : Win), st.tree.wins[i]? = some w →
       ∃ w', t'.wins[i]? = some w' ∧ w'.freed = w.freed ∧ (w.freed = false → 1 ≤ w.refcount → 1 ≤ w'.refcount)) :
-    SInv { st with tree := t' } := by
+    SInvB { st with tree := t' } [] := by
   have back : ∀ (i : Nat) (w' : Win), t'.wins[i]? = some w' →
       ∃ w, st.tree.wins[i]? = some w ∧ w'.freed = w.freed ∧ (w.freed = false → 1 ≤ w.refcount → 1 ≤ w'.refcount) := by
     intro i w' hw'
@@ -473,7 +500,7 @@ theorem SInv.of_tree {st : St} (inv : SInv st) {t' : Tree} (hinv : TInv t') (hsz
       obtain ⟨w', hw', hf, _⟩ := h i w hl.1
       exact ⟨w', hw', by rw [hf]; exact hl.2⟩
   refine ⟨hinv, by simp only; rw [hsz]; exact inv.wx_size, ?_, List.nodup_nil, by intro i hi; simp at hi, ?_,
-    ⟨inv.pens.rc, inv.pens.ex⟩, ?_, ?_, ?_, inv.rb_rc⟩
+    ⟨inv.pens.rc, inv.pens.ex, inv.pens.pos⟩, ?_, ?_, ?_, inv.simple⟩
   · intro i w' hl'
     obtain ⟨w, hw, hf, hr⟩ := back i w' hl'.1
     have hfl : w.freed = false := by rw [← hf]; exact hl'.2
@@ -488,12 +515,39 @@ theorem SInv.of_tree {st : St} (inv : SInv st) {t' : Tree} (hinv : TInv t') (hsz
   · intro hf h
     exact inv.term_dead hf (by rcases h with h | h; exact .inl ((live_iff 0).1 h); simp at h)
 
+/-- A new tree of the same size in which every window keeps `freed` and (if live) its count. -/
+theorem SInv.of_tree {st : St} (inv : SInv st) {t' : Tree} (hinv : TInv t') (hsz : t'.wins.size = st.tree.wins.size)
+    (h : ∀ (i : Nat) (w : Win), st.tree.wins[i]? = some w →
+      ∃ w', t'.wins[i]? = some w' ∧ w'.freed = w.freed ∧ (w.freed = false → w'.refcount = w.refcount)) :
+    SInv { st with tree := t' } := by
+  refine ⟨inv.toSInvB.of_tree hinv hsz ?_, ?_⟩
+  · intro i w hw
+    obtain ⟨w', hw', hf, hr⟩ := h i w hw
+    exact ⟨w', hw', hf, fun hfl h1 => by rw [hr hfl]; exact h1⟩
+  · intro i w' hl'
+    cases hw : st.tree.wins[i]? with
+    | none =>
+      have hlt : ¬ i < st.tree.wins.size := by
+        intro hlt
+        have := Array.getElem?_eq_getElem (xs := st.tree.wins) hlt
+        rw [hw] at this; cases this
+      have := hl'.lt
+      simp only at this
+      omega
+    | some w =>
+      obtain ⟨w'', hw'', hf, hr⟩ := h i w hw
+      have e : w'' = w' := by have := hl'.1; simp only at this; rw [this] at hw''; exact (Option.some.inj hw'').symm
+      subst e
+      have hfl : w.freed = false := by rw [← hf]; exact hl'.2
+      rw [hr hfl]
+      exact inv.wref i w ⟨hw, hfl⟩
+
 theorem SInv.of_rel' {st : St} (inv : SInv st) {t' : Tree} (hinv : TInv t') (hrel : TRel st.tree t')
     (hrc : SameRC st.tree t') : SInv { st with tree := t' } := by
   refine inv.of_tree hinv hrel.1 ?_
   intro i w hw
   obtain ⟨w', hw', hr⟩ := hrel.2 i w hw
-  exact ⟨w', hw', hr.2.2.1, fun _ h => by rw [hrc i w w' hw hw']; exact h⟩
+  exact ⟨w', hw', hr.2.2.1, fun _ => hrc i w w' hw hw'⟩
 
 theorem SInv.of_closed {st : St} (inv : SInv st) {t' : Tree} {win : Nat} {ww : Win} (hw : LiveW st.tree win ww)
     (C : Closed st.tree t' win ww) : SInv { st with tree := t' } := by
@@ -503,26 +557,45 @@ theorem SInv.of_closed {st : St} (inv : SInv st) {t' : Tree} {win : Nat} {ww : W
   · subst hi
     have : w = ww := by rw [hw.1] at hwi; exact (Option.some.inj hwi).symm
     subst this
-    exact ⟨_, C.win_now.1, rfl, fun _ h => h⟩
+    exact ⟨_, C.win_now.1, rfl, fun _ => rfl⟩
   · rcases C.others i w hi hwi with ⟨_, h⟩ | ⟨_, h⟩
-    · exact ⟨w, h, rfl, fun _ h => h⟩
-    · exact ⟨_, h, rfl, fun _ h => h⟩
+    · exact ⟨w, h, rfl, fun _ => rfl⟩
+    · exact ⟨_, h, rfl, fun _ => rfl⟩
 
-/-- `tickit_window_ref`. -/
+/-- `tickit_window_ref` by the application on a window it holds. -/
 theorem refW_ok {st : St} (inv : SInv st) {win : Nat} {ww : Win} (hw : LiveW st.tree win ww) :
-    ∃ st', refW st win = .ok st' ∧ SInv st' := by
+    ∃ st', refW (setX st win { getX st win with appRefs := (getX st win).appRefs + 1 }) win = .ok st' ∧ SInv st' := by
+  have hlt : win < st.wx.size := by rw [inv.wx_size]; exact hw.lt
+  have inv1 : SInvB (setX st win { getX st win with appRefs := (getX st win).appRefs + 1 }) [] :=
+    inv.toSInvB.of_wx rfl rfl rfl rfl rfl (setX_map_pen _ rfl)
   unfold refW
-  simp only [getW, get_live hw, bind_ok, pure_ok]
+  simp only [getW, setX_tree, get_live hw, bind_ok, pure_ok]
   refine ⟨_, rfl, ?_⟩
   obtain ⟨inv', _⟩ := inv.tinv.set_refcount hw (ww.refcount + 1)
-  have := inv.of_tree (t' := WinTree.set st.tree win { ww with refcount := ww.refcount + 1 }) inv' (set_size _ _ _) (by
-    intro i w hwi
+  refine ⟨inv1.of_tree (t' := WinTree.set st.tree win { ww with refcount := ww.refcount + 1 }) inv' (set_size _ _ _) ?_, ?_⟩
+  · intro i w hwi
+    simp only [setX_tree] at hwi
     by_cases hi : win = i
     · subst hi
       have : w = ww := by rw [hw.1] at hwi; exact (Option.some.inj hwi).symm
       subst this
       exact ⟨_, set_get_self _ hw.lt, rfl, fun _ h => by show 1 ≤ w.refcount + 1; omega⟩
-    · exact ⟨w, by rw [set_get_ne _ hi]; exact hwi, rfl, fun _ h => h⟩)
-  exact this
+    · exact ⟨w, by rw [set_get_ne _ hi]; exact hwi, rfl, fun _ h => h⟩
+  · intro i w' hl'
+    have e : getX (setW (setX st win { getX st win with appRefs := (getX st win).appRefs + 1 }) win
+        { ww with refcount := ww.refcount + 1 }) i =
+        getX (setX st win { getX st win with appRefs := (getX st win).appRefs + 1 }) i := rfl
+    rw [e, getX_setX]
+    by_cases hi : win = i
+    · subst hi
+      have hl0 : LiveW (WinTree.set st.tree win { ww with refcount := ww.refcount + 1 }) win { ww with refcount := ww.refcount + 1 } :=
+        ⟨set_get_self _ hw.lt, hw.2⟩
+      have := LiveW.unique hl' hl0; subst this
+      have := inv.wref win ww hw
+      simp only [hlt, and_self, if_true]
+      show ww.refcount + 1 ≤ (((getX st win).appRefs + 1 : Nat) : Int)
+      omega
+    · simp only [hi, false_and, if_false]
+      exact inv.wref i w' ⟨by rw [← set_get_ne _ hi]; exact hl'.1, hl'.2⟩
 
 end Tickit.Life
